@@ -460,10 +460,23 @@ Definition giveup_ok (cfg : config) (its : list item) (o : out1) : bool :=
     end
   else true.
 
+(* the same for phase B (C06_giveupB_only_after_asking_all): ErrInsufficientSignatureResponses (kind 6) may be reported
+   only when the configured signers RMNHome knows that were never sent a report-signature request (no kind-1 Send in
+   the log, accepted or not) could not by themselves supply F_remote+1 signatures; otherwise in the world where those
+   signers are honest and ready the call fails although enough honest signers would answer in time.  No report is
+   needed for this form (a failing output carries none). *)
+Definition asked_sig (log : list send_t) : list node := map snd_node (filter is_k1 log).
+Definition unasked_signers (cfg : config) (log : list send_t) : list node :=
+  filter (fun n => is_home cfg n && negb (memN n (asked_sig log))) (signer_nodes cfg).
+Definition giveupB_ok (cfg : config) (o : out1) : bool :=
+  if N.eqb (o_kind o) 6
+  then negb (gte_f_plus_one (c_remoteF cfg) (zlen (dedupN (unasked_signers cfg (o_log o)))))
+  else true.
+
 (* the executable property of one outcome of a call whose request ids start at 1 + off *)
 Definition c06_ok1_from (off : nat) (i : c06_in) (o : out1) : bool :=
   c06_core i o && log_ok (i_cfg i) (o_log o) (o_attr o) && kind_ok (i_cfg i) (i_items i) o &&
-  giveup_ok (i_cfg i) (i_items i) o &&
+  giveup_ok (i_cfg i) (i_items i) o && giveupB_ok (i_cfg i) o &&
   (if N.eqb (o_kind o) 0 then true else negb (live_test_from off i)).
 Definition c06_ok1 := c06_ok1_from 0.
 Definition c06_ok_from (off : nat) (i : c06_in) (o : c06_out) : bool :=
